@@ -15,7 +15,7 @@ RULE = ('(a) schedules: 2-3 worker threads each compile and evaluate a distinct,
         'and a sequential re-evaluation afterwards still agrees. (b) histories around the compiled-filter cache: a '
         'Hypothesis-drawn sequence over a pool of distinct filters of evaluate-new / re-evaluate-cached / re-evaluate-evicted / '
         'call a function object obtained earlier / gc.collect, against the function re-wrapped with lru_cache(maxsize=8) '
-        '(same body) and deterministic runs against the real capacity of 500 with 1,300 distinct filters; after every '
+        '(same body) and deterministic runs against the real capacity of 500 with 1,700 distinct filters (one of them kept hot); after every '
         'step rows == reference. Non-trivial = (a) the schedule preempts a thread inside the compile path, (b) the '
         'history crossed the cache capacity; distinct by schedule / history.')
 ASSUMPTIONS = ['interleavings are at source-line granularity inside hszinc\'s Python code; C code (lru_cache, dict operations) '
@@ -44,23 +44,37 @@ def shared_grid():
 
 
 def fresh_filters(n, salt):
-    """n filters with pairwise different results and texts never used before in this process"""
+    """n filters with different results and texts never used before in this process.  Every fourth entry is a
+    pair of filters made of the same tokens but grouped differently ('(k or n == v) and n != w ...' vs
+    'k or n == v and n != w ...'): they mean different things although they print alike without parentheses."""
     out = []
-    for i in range(n):
+    i = 0
+    while len(out) < n:
         u = next(_COUNTER)
         v = (salt + i) % 6
-        kind = (salt + i) % 3
+        kind = (salt + i) % 4
+        i += 1
         if kind == 0:
             text = 'n == %d and not zz%d_%d' % (v, salt, u)
             want = ['id%d' % j for j in range(12) if j % 6 == v]
+            out.append((text, want))
         elif kind == 1:
             text = 'n > %d and k and not zz%d_%d' % (v, salt, u)
             want = ['id%d' % j for j in range(12) if j % 6 > v and j % 2]
-        else:
+            out.append((text, want))
+        elif kind == 2:
             text = 'not k and n != %d and not zz%d_%d' % (v, salt, u)
             want = ['id%d' % j for j in range(12) if j % 6 != v and not j % 2]
-        out.append((text, want))
-    return out
+            out.append((text, want))
+        else:
+            w = (v + 1) % 6 if (v + 1) % 2 else (v + 2) % 6     # an odd n value: rows with k and n == w exist
+            a = '(k or n == %d) and n != %d and not zz%d_%d' % (v, w, salt, u)
+            wa = ['id%d' % j for j in range(12) if (j % 2 or j % 6 == v) and j % 6 != w]
+            b = 'k or n == %d and n != %d and not zz%d_%d' % (v, w, salt, u)
+            wb = ['id%d' % j for j in range(12) if j % 2 or (j % 6 == v and j % 6 != w)]
+            out.append((a, wa))
+            out.append((b, wb))
+    return out[:n]
 
 
 def run_schedule(nthreads, schedule, salt):
@@ -218,17 +232,22 @@ def run(part, args, env):
     else:
         v = args['variant']
         ops = []
-        npool = 1300
+        npool = 1700
+        hot = 3 + v          # a filter kept in the cache by regular use while > 1,000 others are compiled
         for i in range(0, 700):
             ops.append(['eval', i])
             if i % 50 == v:
                 ops.append(['hold', i])
+            if i % 90 == 0:
+                ops.append(['eval', hot])
         ops.append(['gc', 0])
         for i in range(0, 60):
             ops.append(['eval', (i * 7 + v) % 700])         # evicted and still-cached ones
             ops.append(['call_old', (i * 50 + v) % 700])
         for i in range(700, npool):
             ops.append(['eval', i])
+            if i % 90 == 0:
+                ops.append(['eval', hot])
             if i % 97 == v:
                 ops.append(['eval', (i * 3) % 700])
                 ops.append(['call_old', (v + 50 * (i % 14))])
